@@ -518,7 +518,7 @@ def isbuiltinsubtype(t: type) -> compat.TypeIs[type[BuiltIntypeT]]:
         >>> isbuiltintype(Mapping)
         False
     """
-    return issubclass(resolve_supertype(t), BUILTIN_TYPES_TUPLE)
+    return _safe_issubclass(resolve_supertype(t), BUILTIN_TYPES_TUPLE)
 
 
 @compat.cache
@@ -1502,7 +1502,8 @@ def unwrap(t: tp.Any) -> tp.Any:
             lt = t
             t = normalize_typevar(t)
             continue
-        if should_unwrap(t):
+        # (A bare `Final` / `ClassVar` has nothing to unwrap to.)
+        if should_unwrap(t) and getattr(t, "__args__", None):
             lt = t
             t = t.__args__[0]
             continue
